@@ -53,8 +53,8 @@ def _decl(rng):
             if gn not in gnames and gn != b"__default":
                 gnames.add(gn)
                 break
-        gd = " ".join(_word(rng)[:12] for _ in range(rng.randint(0, 4))).encode() if rng.random() < 0.5 else b""
-        groups.append((gn, gd[:60]))
+        gd = " ".join(_word(rng)[:12] for _ in range(rng.choice([0, 2, 4, 12, 30]))).encode() if rng.random() < 0.6 else b""
+        groups.append((gn, gd[:rng.choice([60, 80, 81, 200])].strip()))
     n = rng.choice([0, 1, 2, 3, 5, 8, 12])
     names = set()
     letters = rng.sample(LETTERS, min(n, len(LETTERS)))
@@ -88,7 +88,7 @@ def _decl(rng):
     d = optgen.D(opts, pos=rng.choice([None, None, 2, "inf"]), greedy=False)
     d["app"] = _name(rng, 1, rng.choice([8, 8, 30, 75]))
     if rng.random() < 0.5:
-        d["about"] = " ".join(_word(rng)[:10] for _ in range(rng.randint(1, 5))).encode()[:60]
+        d["about"] = " ".join(_word(rng)[:10] for _ in range(rng.choice([1, 3, 5, 20]))).encode()[:rng.choice([60, 200])].strip()
     if rng.random() < 0.3:
         d["group_name"] = _name(rng, 1, 20)
         d.setdefault("about", b"")
